@@ -217,7 +217,7 @@ impl Check for C09 {
         let offs: Vec<f32> = if q { vec![0.0, 4.5, -4.5, 10000.5, -123456792.0, 1e9] } else { vec![0.0, 1.0, 4.5, -1.0, -4.5, 10000.5, -10000.5, 123456792.0, -123456792.0, 1e9, -1e9] };
         // width 8: caps (4 px deep) hold pixels that are inside by more than the margin
         let styles: Vec<(f32, u8, u8)> = if q { vec![(2.0, 0, 1), (8.0, 1, 0), (8.0, 2, 2)] } else { vec![(2.0, 0, 1), (4.0, 1, 0), (8.0, 2, 2), (8.0, 1, 1), (6.0, 0, 0)] };
-        run.bound("polylines", format!("open 2- and 3-vertex polylines, closed triangles (and quadrilaterals) over 9 points x {} dash arrays x {} offsets x {} styles", arrs.len(), offs.len(), styles.len()));
+        run.bound("polylines", format!("open 2- and 3-vertex polylines, open triangles ending on their own first point, closed triangles (and quadrilaterals) over 9 points x {} dash arrays x {} offsets x {} styles", arrs.len(), offs.len(), styles.len()));
         run.par(g.len() * g.len(), |s, l| {
             let (a, b) = (g[s / g.len()], g[s % g.len()]);
             if a == b {
@@ -234,6 +234,10 @@ impl Check for C09 {
                 if q && (ci + s) % 3 != 0 {
                     continue;
                 }
+                // an open subpath that returns to its own first point: its last dash and its first
+                // dash stay two capped pieces (only Close joins them)
+                paths.push(PathSpec::new(vec![POp::M(a.0, a.1), POp::L(b.0, b.1), POp::L(c.0, c.1), POp::L(a.0, a.1)]));
+                paths.push(PathSpec::new(vec![POp::M(a.0, a.1), POp::L(b.0, b.1), POp::L(c.0, c.1), POp::L(a.0, a.1), POp::M(c.0, c.1), POp::L(b.0, b.1)]));
                 {
                     let d = g[(s + 4) % g.len()];
                     if d != a && d != b && d != *c {
